@@ -68,6 +68,8 @@ FIXED = [
   "with `(defoverrides (lctl k) (lalt min))`, lctl held and `(unshift k)` held, the OS sees LAlt+Minus; the repeat lookup applied the overrides without the unmod/unshift keys and forwarded a repeat of lctl as LCtrl (and of the unshift key as K), keys that are up"),
  ("F43", "C14", "fix: the repeat outputs of a chord key list only the chords that key takes part in",
   "every chord of a defchords group was recorded as a possible output of every key of the group; with `(x) q (y) w (x y) kp2`, x and y held as separate chords, the repeat of y was forwarded as q (held by x) instead of w"),
+ ("F46", "C19", "fix: a dynamic macro stays active until its replayed events are handled",
+  "a recording that contains its own play key (pressed while it was being recorded) and ends while a tap-hold / tap-dance decision is pending: the replay state was dropped when the last item was handed to the layout, the queued play key was handled afterwards, not recognised as recursion, and the macro replayed itself for ever"),
 ]
 log = subprocess.check_output(["git", "-C", "/repo", "log", "--format=%h %s"]).decode().splitlines()
 out = []
